@@ -580,6 +580,79 @@ func prop(c Case) pbt.Outcome {
 			}
 		}
 	}
+	hasChan := false
+	for _, p := range ld.Procs {
+		hasChan = hasChan || usesChannels(p.Ops)
+	}
+	if hasChan {
+		// ---- machines with channels: the processors run together, channel opcodes by their stated meaning (sim.go SimulateBM)
+		for _, p := range ld.Procs {
+			if !chanSimEligible(p.Ops, c.Rsize) {
+				sort.Strings(badOps)
+				lab("sem:needs-hdl")
+				lab("sem:needs-hdl:" + strings.Join(dedup(badOps), ","))
+				return finish(out)
+			}
+		}
+		inputs := make([][]uint64, len(ld.Procs))
+		want := make([]map[int]int, len(ld.Procs))
+		rounds := 400
+		for k, p := range ld.Procs {
+			rr := ref.Routines[k]
+			inputs[k] = make([]uint64, int(p.Mach.N))
+			for idx, gid := range rr.InGids {
+				if idx < len(inputs[k]) && gid < len(c.InVals) {
+					inputs[k][idx] = c.InVals[gid]
+				}
+			}
+			want[k] = map[int]int{}
+			for idx, st := range rr.Streams {
+				want[k][idx] = len(st)
+			}
+			rounds += 20 * rr.Evals
+		}
+		got, executed, ended, serr := SimulateBM(ld, inputs, rounds, want)
+		lab("sem:chansim-ended:" + ended)
+		total := 0
+		for k := range ld.Procs {
+			rr := ref.Routines[k]
+			var gk map[int][]uint64
+			var ex int
+			if k < len(got) {
+				gk, ex = got[k], executed[k]
+			}
+			// (the number of rounds is twenty per evaluation step of the whole source, as on the single-processor
+			// path: a stream that is still short then is short)
+			mismatch, _, n := compare(rr, gk, fmt.Sprintf("%d instructions (the bondmachine's processors run together, the run ended %s)", ex, ended))
+			if serr != nil {
+				mismatch = "simulation stopped: " + serr.Error()
+			}
+			total += n
+			if mismatch == "" {
+				continue
+			}
+			streams := ""
+			for q := range ld.Procs {
+				var gq map[int][]uint64
+				if q < len(got) {
+					gq = got[q]
+				}
+				streams += fmt.Sprintf("processor %d (%s, %s): expected %v machine %v\n", q, ref.Routines[q].Func, ref.Routines[q].Stopped, clip(ref.Routines[q].Streams), clip(gq))
+			}
+			asm := ""
+			for _, q := range sortedKeys(base.Asm) {
+				asm += fmt.Sprintf("--- assembly %d\n%s", q, numbered(base.Asm[q]))
+			}
+			return classify(pbt.Failf(sigSemantics, "register size %d, processor %d (%s), processors run together with rendezvous channels: %s\n%sshared links %v\n--- source\n%s%s",
+				c.Rsize, k, rr.Func, mismatch, streams, sharedLinks(base.Machine), c.Src, asm), k, gk)
+		}
+		lab("sem:chansim-verdict")
+		if eqTrue > 0 || facts.Labels["op:=="] {
+			lab("sem:chansim-verdict-with-je")
+		}
+		out.NonTrivial = ref.Vars >= 2 && facts.Loops+facts.Branches >= 1 && total >= 3
+		return finish(out)
+	}
 	if !allFaithful && !allHDL {
 		sort.Strings(badOps)
 		lab("sem:needs-hdl")
@@ -749,7 +822,7 @@ func dedup(xs []string) []string {
 	return r
 }
 
-const ruleCommon = "; each program is compiled by the real bondgo CLI once per plan (3 plans: GOMAXPROCS in {1,2,4,8} x VERIF_BONDGO_SCHED), register size 8/16/32/64, every routine ends in an endless writing loop; oracles: (i) every run terminates (10 s; a goroutine dump classifies hangs), (ii) assembly and machine JSON byte-equal across plans, (iii) reference evaluator vs the machine: on the Go simulator when all requested opcodes are faithful there; on the generated Verilog (real Write_verilog, in-house interpreter, r2o writes observed on _auxoK) when the machine also uses the RAM moves r2m/m2r, and for one in eight faithful machines as a guard of that path; channel opcodes: label sem:needs-hdl, not judged; with -mpm every processor port must be bonded to the bondmachine port of the global id its variable was made with (external ports are in ascending id order); a permanent deadlock of the compiler is recognised from the dump (every goroutine parked) without waiting for the deadline; non-trivial = accepted, >=2 value variables, >=1 loop or branch, >=3 output values compared with the reference"
+const ruleCommon = "; each program is compiled by the real bondgo CLI once per plan (3 plans: GOMAXPROCS in {1,2,4,8} x VERIF_BONDGO_SCHED), register size 8/16/32/64, every routine ends in an endless writing loop; oracles: (i) every run terminates (10 s; a goroutine dump classifies hangs), (ii) assembly and machine JSON byte-equal across plans, (iii) reference evaluator vs the machine: on the Go simulator when all requested opcodes are faithful there; on the generated Verilog (real Write_verilog, in-house interpreter, r2o writes observed on _auxoK) when the machine also uses the RAM moves r2m/m2r, and for one in eight faithful machines as a guard of that path; machines with channel opcodes (which neither back-end of /repo executes) run with all their processors together, wwr/wrd/chw by their stated meaning as an unbuffered rendezvous between the two processors linked to the shared object, r2m/m2r as a per-processor array (sim.go SimulateBM; label sem:chansim-verdict); with -mpm every processor port must be bonded to the bondmachine port of the global id its variable was made with (external ports are in ascending id order); a permanent deadlock of the compiler is recognised from the dump (every goroutine parked) without waiting for the deadline; non-trivial = accepted, >=2 value variables, >=1 loop or branch, >=3 output values compared with the reference"
 
 var Props = []*pbt.Entry{
 	pbt.Def("compile_faithful",
